@@ -19,10 +19,15 @@ pub fn no_child(_: &[String]) -> i32 {
 }
 
 pub mod okey;
+pub mod engine;
 
 pub fn all() -> Vec<StreamDef> {
     vec![
         okey::def(),
+        engine::def(),
+        engine::def_reopen(),
+        engine::def_compact(),
+        engine::def_abort(),
     ]
 }
 
